@@ -11,6 +11,7 @@ fn prop_by_id(id: &str) -> Option<Box<dyn Prop>> {
     Some(match id {
         "C01" => Box::new(props::c01::Framing { cancel: false }),
         "C07" => Box::new(props::c01::Framing { cancel: true }),
+        "C02" => Box::new(props::c02::Outbound),
         _ => return None,
     })
 }
@@ -48,6 +49,7 @@ fn main() {
         workers: std::thread::available_parallelism().map(|n| n.get()).unwrap_or(8),
         runs_override: None,
         write_evidence: true,
+        digest: false,
     };
     let mut i = 2;
     while i < args.len() {
@@ -65,6 +67,7 @@ fn main() {
                 i += 1;
             }
             "--no-evidence" => opt.write_evidence = false,
+            "--digest" => opt.digest = true,
             _ => usage(),
         }
         i += 1;
